@@ -3,10 +3,12 @@
 package corebgp
 
 import (
+	"bytes"
 	"errors"
 	"fmt"
 	"io"
 	"net/netip"
+	"strings"
 	"sync"
 	"sync/atomic"
 	"time"
@@ -389,6 +391,17 @@ func Verif_TV_concurrency_semantics() {
 	verifObserve("time.before", t0.Before(t0.Add(time.Minute)))
 	verifObserve("time.sub", int(t0.Add(3*time.Second).Sub(t0)))
 	verifObserve("time.equal", t0.Add(0).Equal(t0))
+	// bytes / strings helpers that end in internal/bytealg
+	rep := bytes.Repeat([]byte{0xAB, 1}, 3)
+	verifObserve("bytes.repeat", rep)
+	verifObserve("bytes.indexbyte", bytes.IndexByte(rep, 1))
+	verifObserve("bytes.indexbyte-miss", bytes.IndexByte(rep, 7))
+	verifObserve("bytes.compare-lt", bytes.Compare(rep, []byte{0xAB, 2}))
+	verifObserve("bytes.compare-gt", bytes.Compare(rep, []byte{0xAB, 1}))
+	verifObserve("bytes.compare-eq", bytes.Compare(rep[:2], []byte{0xAB, 1}))
+	verifObserve("bytes.count", bytes.Count(rep, []byte{1}))
+	verifObserve("strings.indexbyte", strings.IndexByte("a:b", ':'))
+	verifObserve("strings.hasprefix", strings.HasPrefix("192.0.2.1", "192.0."))
 	// timers (pre-1.23 channel semantics of this module)
 	tm := time.NewTimer(0)
 	<-tm.C
